@@ -162,18 +162,28 @@ def run(ctx):
     ctx.explanation = (
         "PROVED (Coq, closed): the validator `verify` is sound - if it accepts an abstract function then every offset "
         "reachable from the entry by any number of steps along ordinary, exception-handler and finally edges is the start "
-        "of exactly one instruction inside the byte array, all its index operands (value-pool entry of the kind the VM casts "
-        "it to, local slot < 1+params+PREP_LOCALS, upvalue < UpvalueCount) are in range and all its successors are "
-        "instruction starts; catch From/To/JumpAddress are instruction starts (entries with To<=From cover nothing: the "
-        "generator marker entry); the decoder terminates and its output is contiguous and covers the bytes; the regenerated "
-        "opcode table is total. VALIDATED PER FUNCTION (not proved): the compiler - every BytecodeFunction reachable from what "
-        "checker.CheckSource/CheckFile return for main.elk.test (std kernel + all repository .elk.test files), wide-frame "
-        "programs and seeded generated programs is decoded and validated by the extracted code, and the real Disassemble "
-        "must succeed and step over the same boundaries. TRUSTED: the hand-written per-opcode operand roles/kinds "
-        "(harness/cfgx/optable.go, from vm/thread.go) - only their WIDTHS are cross-checked against the real disassembler "
-        "(c29.optable); the modelling of JUMP_TO_FINALLY targets (offset constants loaded by LOAD_VALUE two instructions "
-        "before a JUMP_TO_FINALLY). NOT BUILT: the stack-depth dataflow pass (depth >= 0 and consistent at joins) and the "
-        "c29.depth stream - that clause of the property is not covered; ivar indices and NEW_* element counts are not checked.")
+        "of exactly one instruction inside the byte array, all its index operands are in range (local slot < "
+        "1+params+PREP_LOCALS, upvalue < UpvalueCount, value-pool index < pool size) and all its successors are instruction "
+        "starts (C29_verify_sound); every pool operand names an entry of the KIND the opcode makes the VM cast it to - "
+        "CallSiteInfo / BytecodeCallSiteInfo / NativeCallSiteInfo / inline Symbol (C29_pool_kinds_sound; kinds are exported "
+        "by the harness from the Go type of each pool entry); catch From/To/JumpAddress are instruction starts (entries with "
+        "To<=From cover nothing: the generator marker entry); the decoder terminates and its output is contiguous and covers "
+        "the bytes; the regenerated opcode table is total. VALIDATED PER FUNCTION (not proved): the compiler - every "
+        "BytecodeFunction reachable from what checker.CheckSource/CheckFile return for main.elk.test (std kernel + all "
+        "repository .elk.test files), seeded generated programs (second generation: method-to-method calls to earlier, "
+        "current and LATER-defined methods in value, ignored and TAIL position, bodies whose value is an if/switch/do with "
+        "returning branches), and WIDE programs - systematic container x construct x pad shapes and random programs whose "
+        "bodies are preceded by 244..530 pool-filling statements (strings, floats, native / static / deferred call sites) "
+        "and/or > 255 locals, literals with > 255 elements, > 255 arguments / ivars / upvalues, code > 64 KiB (thorough), so "
+        "that the 16-bit opcode variants are emitted - is decoded and validated by the extracted code, and the real "
+        "Disassemble must succeed and step over the same boundaries. TRUSTED: the hand-written per-opcode operand "
+        "roles/kinds (harness/cfgx/optable.go, from vm/thread.go) - only their WIDTHS are cross-checked against the real "
+        "disassembler (c29.optable); the modelling of JUMP_TO_FINALLY targets (offset constants loaded by LOAD_VALUE two "
+        "instructions before a JUMP_TO_FINALLY). NOT BUILT: the stack-depth dataflow pass (depth >= 0 and consistent at "
+        "joins) and the c29.depth stream - that clause of the property is not covered, so defects that keep the stream "
+        "decodable but unbalance the stack (e.g. INSTANTIATE8 emitted with a 2-byte operand for > 255 constructor "
+        "arguments, whose stray low byte happens to be a 1-byte opcode) are NOT detected; the kind of the function a "
+        "CLOSURE instruction pops, ivar indices and NEW_* element counts are not checked.")
     ctx.trusted_base += [
         "hand-written opcode table (operand roles, control-flow kinds) in harness/cfgx/optable.go, from vm/thread.go",
         "Go exporter (harness/cfgx/export.go) and OCaml parser (ocaml/C29/cfgio.ml) of the function dump",
@@ -194,10 +204,15 @@ def run(ctx):
         corpus=os.path.join(vlib.ROOT, "corpus", "C29.verify.txt"),
         nwide=ctx.n(70, 1200), nwiderand=ctx.n(25, 1500))
     ctx.streams["c29.verify"]["rule"] = (
-        "corpus programs, then main.elk.test (imports std + every *.elk.test), standalone *.elk, wide-frame programs, then "
-        "seeded generated programs (methods, generators, async, classes, modules, macros; nested/labelled loops of every "
-        "kind, do/catch/finally with break/continue/return, switch patterns, closures); EVERY BytecodeFunction reachable "
-        "through value pools is one evaluation; non-trivial = distinct (code, tables) with >= 4 instructions")
+        "corpus programs, then main.elk.test (imports std + every *.elk.test), standalone *.elk, wide-frame programs and "
+        "wide corners (> 255 locals / upvalues / arguments / ivars), systematic wide shapes (8 containers x 34 constructs "
+        "x 6 pad kinds, pad 246..520 pool entries and/or > 255 locals in front of the construct: tail/self/later/earlier/"
+        "native/dynamic calls, closures, for-in, break/continue/return through finally, switch, literals ...), random "
+        "programs in the wide profile, then seeded generated programs (methods, generators, async, classes, modules, macros; "
+        "calls between methods incl. tail calls and deferred static binding; nested/labelled loops of every kind, "
+        "do/catch/finally with break/continue/return, switch patterns, closures; final expressions with returning "
+        "branches); EVERY BytecodeFunction reachable through value pools is one evaluation; non-trivial = distinct "
+        "(code, tables) with >= 4 instructions")
     if compared == 0:
         ctx.broke("c29.verify: no function was validated")
     ctx.extra["programs"] = compared
